@@ -20,6 +20,8 @@ type c28Sample struct {
 	D int64  `json:"d"` // duration, ns
 	N uint16 `json:"n"` // PrevDroppedPackets
 	L int    `json:"l"` // len(Data)
+	K uint8  `json:"k"` // 0: WriteSample(D, N, L); 1: GeneratePadding(P)
+	P uint16 `json:"p"` // padding packets asked for (K == 1)
 }
 
 type c28In struct {
@@ -64,12 +66,13 @@ func (c *c28Chunker) Payload(_ uint16, payload []byte) [][]byte {
 type c28Pk struct {
 	seq uint16
 	ts  uint32
+	pad bool // Header.Padding with PaddingSize 255 and no payload
 }
 
 type c28Writer struct{ got []c28Pk }
 
-func (w *c28Writer) WriteRTP(h *rtp.Header, _ []byte) (int, error) {
-	w.got = append(w.got, c28Pk{h.SequenceNumber, h.Timestamp})
+func (w *c28Writer) WriteRTP(h *rtp.Header, payload []byte) (int, error) {
+	w.got = append(w.got, c28Pk{h.SequenceNumber, h.Timestamp, h.Padding && h.PaddingSize == 255 && len(payload) == 0})
 	return 0, nil
 }
 func (w *c28Writer) Write([]byte) (int, error) { panic("c28: Write not expected") }
@@ -95,6 +98,10 @@ func c28Counts(cfg c28Cfg, samples []c28Sample) []int {
 	frames := 0 // non-empty frames seen by the VP8 payloader
 	const room = 1200 - 12
 	for i, s := range samples {
+		if s.K == 1 {
+			out[i] = int(s.P)
+			continue
+		}
 		if s.L == 0 {
 			continue
 		}
@@ -152,10 +159,16 @@ func c28Run(in c28In) (V, Verdict) {
 	rate := new(big.Rat).SetInt64(int64(cfg.cap.ClockRate))
 	giga := new(big.Rat).SetInt64(1000000000)
 	consumed := uint16(0) // sequence numbers used so far
-	withPackets, fractional, offByOne, maxAbs := 0, 0, 0, 0
+	withPackets, fractional, offByOne, maxAbs, paddings := 0, 0, 0, 0, 0
 	for k, s := range in.Samples {
 		w.got = w.got[:0]
-		if werr := track.WriteSample(media.Sample{Data: c28Data[:s.L], Duration: time.Duration(s.D), PrevDroppedPackets: s.N}); werr != nil {
+		if s.K == 1 {
+			if werr := track.GeneratePadding(uint32(s.P)); werr != nil {
+				fail("sample-write-error", fmt.Sprintf("call %d: GeneratePadding: %v", k, werr))
+			}
+			s.D, s.N = 0, 0 // for the oracle: a burst of padding takes sequence numbers, no time
+			paddings++
+		} else if werr := track.WriteSample(media.Sample{Data: c28Data[:s.L], Duration: time.Duration(s.D), PrevDroppedPackets: s.N}); werr != nil {
 			fail("sample-write-error", fmt.Sprintf("sample %d: %v", k, werr))
 		}
 		obs = append(obs, byte(len(w.got)>>8), byte(len(w.got)))
@@ -180,6 +193,9 @@ func c28Run(in c28In) (V, Verdict) {
 			withPackets++
 		}
 		for j, p := range w.got {
+			if p.pad != (s.K == 1) {
+				fail("padding-flag-wrong", fmt.Sprintf("call %d packet %d: padding-only %v, call kind %d", k, j, p.pad, s.K))
+			}
 			if p.ts != w.got[0].ts {
 				fail("sample-ts-differs-within-sample", fmt.Sprintf("sample %d packet %d: timestamp %d, first packet %d", k, j, p.ts, w.got[0].ts))
 			}
@@ -209,6 +225,9 @@ func c28Run(in c28In) (V, Verdict) {
 	if verdict.OK {
 		verdict.NonTrivial = withPackets >= 10 && fractional >= 1
 		verdict.Class = fmt.Sprintf("%s/maxdiff%d", cfg.name, maxAbs)
+		if paddings > 0 {
+			verdict.Class += "/padding"
+		}
 	}
 	_ = offByOne
 	return VBy(obs), verdict
@@ -225,7 +244,11 @@ func c28Coq(in c28In) string {
 	counts := c28Counts(cfg, in.Samples)
 	for i, s := range in.Samples {
 		d := uint64(s.D)
-		out = append(out, byte(d>>40), byte(d>>32), byte(d>>24), byte(d>>16), byte(d>>8), byte(d), byte(s.N>>8), byte(s.N),
+		if s.K == 1 {
+			out = append(out, 1, 0, 0, 0, 0, 0, 0, 0, 0, byte(s.P>>8), byte(s.P))
+			continue
+		}
+		out = append(out, 0, byte(d>>40), byte(d>>32), byte(d>>24), byte(d>>16), byte(d>>8), byte(d), byte(s.N>>8), byte(s.N),
 			byte(counts[i]>>8), byte(counts[i]))
 	}
 	return CoqBytes(out)
@@ -286,6 +309,9 @@ func c28Gen(maxLen int) func(r *Rand, i int) c28In {
 				}
 			}
 			in.Samples = append(in.Samples, s)
+			if r.Chance(1, 10) { // padding between samples: sequence numbers, no time
+				in.Samples = append(in.Samples, c28Sample{K: 1, P: uint16(r.Intn(5))})
+			}
 		}
 		return in
 	}
@@ -325,6 +351,10 @@ func init() {
 					{D: 20000000, L: 160, N: 1}, {D: 12345678, L: 3000, N: 2}, {D: 12345678, L: 10}}},
 				// clock rate 1 Hz with sub-tick durations
 				{Cfg: 8, TS0: 0, Seq0: 1, Samples: c28Rep(c28Sample{D: 333333333, L: 600}, 30)},
+				// GeneratePadding before the first sample, between samples, with a dropped report after it, and of zero packets
+				{Cfg: 3, TS0: 0xfffffff0, Seq0: 65533, Samples: []c28Sample{{K: 1, P: 2}, {D: 33333333, L: 2500}, {K: 1, P: 3}, {D: 33333333, L: 100, N: 2},
+					{K: 1, P: 0}, {D: 33333333, L: 100}, {K: 1, P: 1}, {K: 1, P: 1}, {D: 33333333, L: 1300}, {D: 33333333, L: 10}, {D: 33333333, L: 10},
+					{D: 33333333, L: 10}, {D: 33333333, L: 10}, {D: 33333333, L: 10}, {D: 33333333, L: 10}, {D: 33333333, L: 10}}},
 			}
 		},
 		Gen: func(r *Rand, i int) c28In {
